@@ -592,3 +592,560 @@ Proof.
   destruct sg as [negexp t1].
   destruct (scan_exp t1 0) as [e t2]. apply Hgo'.
 Qed.
+
+(* ------------------------------------------------------------------------------------------ *)
+(* Part 3, converse — a valid finite value whose (rational) value lies in the integer range is  *)
+(* accepted by can_conv_float_int                                                              *)
+(* ------------------------------------------------------------------------------------------ *)
+
+Lemma digits2_pos_lower : forall m, 2 ^ (Z.pos (digits2_pos m) - 1) <= Z.pos m.
+Proof.
+  induction m as [m IH | m IH |]; cbn [digits2_pos].
+  - rewrite Pos2Z.inj_succ. replace (Z.succ (Z.pos (digits2_pos m)) - 1)
+      with (Z.succ (Z.pos (digits2_pos m) - 1)) by lia.
+    rewrite Z.pow_succ_r by lia. lia.
+  - rewrite Pos2Z.inj_succ. replace (Z.succ (Z.pos (digits2_pos m)) - 1)
+      with (Z.succ (Z.pos (digits2_pos m) - 1)) by lia.
+    rewrite Z.pow_succ_r by lia. lia.
+  - cbn. lia.
+Qed.
+
+(* a valid finite value above the minimal exponent has a full (normal) mantissa *)
+Lemma valid_normal : forall f s m e, valid f (S754_finite s m e) -> femin f < e ->
+  2 ^ (prec f - 1) <= Z.pos m.
+Proof.
+  intros f s m e Hv He. unfold valid, valid_binary, bounded in Hv.
+  apply andb_true_iff in Hv. destruct Hv as [Hc _].
+  unfold canonical_mantissa in Hc. apply Zeq_bool_eq in Hc. unfold fexp in Hc.
+  unfold femin in He.
+  assert (Z.pos (digits2_pos m) = prec f) by lia.
+  pose proof (digits2_pos_lower m) as Hl. rewrite H in Hl. exact Hl.
+Qed.
+
+Lemma valid_emin : forall f s m e, valid f (S754_finite s m e) -> femin f <= e.
+Proof.
+  intros f s m e Hv. unfold valid, valid_binary, bounded in Hv.
+  apply andb_true_iff in Hv. destruct Hv as [Hc _].
+  unfold canonical_mantissa in Hc. apply Zeq_bool_eq in Hc. unfold fexp in Hc.
+  unfold femin. lia.
+Qed.
+
+(* m * 2^e <= B  and  B < m * 2^e, for m, B integers and e of either sign, without rationals *)
+Definition mle (m e B : Z) : Prop := if 0 <=? e then m * 2 ^ e <= B else m <= B * 2 ^ (- e).
+Definition mlt (B m e : Z) : Prop := if 0 <=? e then B < m * 2 ^ e else B * 2 ^ (- e) < m.
+
+Lemma mle_scale : forall m e B K, 0 <= K -> 0 <= e + K ->
+  mle m e B -> m * 2 ^ (e + K) <= B * 2 ^ K.
+Proof.
+  intros m e B K HK HeK H. unfold mle in H. destruct (0 <=? e) eqn:E.
+  - apply Z.leb_le in E. rewrite Z.pow_add_r by lia.
+    assert (0 < 2 ^ K) by (apply Z.pow_pos_nonneg; lia). nia.
+  - apply Z.leb_gt in E. replace K with ((e + K) + (- e)) at 2 by lia.
+    rewrite (Z.pow_add_r 2 (e + K) (- e)) by lia.
+    assert (0 < 2 ^ (e + K)) by (apply Z.pow_pos_nonneg; lia). nia.
+Qed.
+
+Lemma mlt_scale : forall m e B K, 0 <= K -> 0 <= e + K ->
+  mlt B m e -> B * 2 ^ K < m * 2 ^ (e + K).
+Proof.
+  intros m e B K HK HeK H. unfold mlt in H. destruct (0 <=? e) eqn:E.
+  - apply Z.leb_le in E. rewrite Z.pow_add_r by lia.
+    assert (0 < 2 ^ K) by (apply Z.pow_pos_nonneg; lia). nia.
+  - apply Z.leb_gt in E. replace K with ((e + K) + (- e)) at 1 by lia.
+    rewrite (Z.pow_add_r 2 (e + K) (- e)) by lia.
+    assert (0 < 2 ^ (e + K)) by (apply Z.pow_pos_nonneg; lia). nia.
+Qed.
+
+(* completeness of the exponent-then-mantissa order against a bound (mB, eB) that is tight for
+   the integer B: B < (mB + 1) * 2^eB *)
+Lemma mag_cmp_complete : forall p emin_ m e mB eB B,
+  0 < p -> 0 < m -> (emin_ < e -> 2 ^ (p - 1) <= m) -> emin_ <= eB -> mB + 1 <= 2 ^ p ->
+  mlt B (mB + 1) eB -> mle m e B ->
+  e < eB \/ (e = eB /\ m <= mB).
+Proof.
+  intros p emin_ m e mB eB B Hp Hm Hnorm HeB HmB Hlt Hle.
+  set (K := Z.abs e + Z.abs eB).
+  assert (HK : 0 <= K) by (unfold K; lia).
+  assert (Ha : 0 <= e + K) by (unfold K; lia).
+  assert (Hb : 0 <= eB + K) by (unfold K; lia).
+  pose proof (mle_scale m e B K HK Ha Hle) as H1.
+  pose proof (mlt_scale (mB + 1) eB B K HK Hb Hlt) as H2.
+  assert (H3 : m * 2 ^ (e + K) < (mB + 1) * 2 ^ (eB + K)) by lia.
+  clear H1 H2 Hlt Hle.
+  destruct (Z.lt_trichotomy e eB) as [Hc | [Hc | Hc]].
+  - left. exact Hc.
+  - right. split; [exact Hc|]. subst eB.
+    assert (0 < 2 ^ (e + K)) by (apply Z.pow_pos_nonneg; lia). nia.
+  - exfalso. assert (Hn : 2 ^ (p - 1) <= m) by (apply Hnorm; lia).
+    replace (e + K) with ((eB + K) + (e - eB)) in H3 by lia.
+    rewrite Z.pow_add_r in H3 by lia.
+    assert (H0 : 0 < 2 ^ (eB + K)) by (apply Z.pow_pos_nonneg; lia).
+    assert (H2 : 2 ^ 1 <= 2 ^ (e - eB)) by (apply Z.pow_le_mono_r; lia).
+    change (2 ^ 1) with 2 in H2.
+    replace p with (Z.succ (p - 1)) in HmB by lia. rewrite Z.pow_succ_r in HmB by lia.
+    set (a := 2 ^ (eB + K)) in *. set (b := 2 ^ (e - eB)) in *. set (q := 2 ^ (p - 1)) in *.
+    assert ((mB + 1) * a <= m * (a * b)); [|lia].
+    apply Z.le_trans with (m * (a * 2)); [nia|].
+    apply Z.mul_le_mono_nonneg_l; [lia|]. apply Z.mul_le_mono_nonneg_l; lia.
+Qed.
+
+(* z <= value(v) and value(v) <= z for a finite v, stated on integers
+   (value (S754_finite s m e) = (-1)^s * m * 2^e) *)
+Definition Z_le_sf (z : Z) (v : spec_float) : Prop :=
+  match v with
+  | S754_zero _ => z <= 0
+  | S754_finite s m e =>
+      let sm := if s then Z.neg m else Z.pos m in
+      if 0 <=? e then z <= sm * 2 ^ e else z * 2 ^ (- e) <= sm
+  | _ => False
+  end.
+Definition sf_le_Z (v : spec_float) (z : Z) : Prop :=
+  match v with
+  | S754_zero _ => 0 <= z
+  | S754_finite s m e =>
+      let sm := if s then Z.neg m else Z.pos m in
+      if 0 <=? e then sm * 2 ^ e <= z else sm <= z * 2 ^ (- e)
+  | _ => False
+  end.
+
+Definition lo_tight (p emin_ : Z) (L : spec_float) (lo : Z) : bool :=
+  match L with
+  | S754_zero _ => lo =? 0
+  | S754_finite true mL eL =>
+      (lo <=? 0) && (Z.pos mL + 1 <=? 2 ^ p) && (emin_ <=? eL) &&
+      (if 0 <=? eL then - lo <? (Z.pos mL + 1) * 2 ^ eL else - lo * 2 ^ (- eL) <? Z.pos mL + 1)
+  | _ => false
+  end.
+
+Definition hi_tight (p emin_ : Z) (H : spec_float) (hi : Z) : bool :=
+  match H with
+  | S754_finite false mH eH =>
+      (0 <=? hi) && (Z.pos mH + 1 <=? 2 ^ p) && (emin_ <=? eH) &&
+      (if 0 <=? eH then hi <? (Z.pos mH + 1) * 2 ^ eH else hi * 2 ^ (- eH) <? Z.pos mH + 1)
+  | _ => false
+  end.
+
+Lemma pow2_pos : forall e, 0 <= e -> 0 < 2 ^ e.
+Proof. intros. apply Z.pow_pos_nonneg; lia. Qed.
+
+Lemma f_ge_complete : forall f v L lo, 0 < prec f -> valid f v ->
+  lo_tight (prec f) (femin f) L lo = true -> Z_le_sf lo v -> f_ge v L = true.
+Proof.
+  intros f v L lo Hp Hv HL Hle.
+  destruct L as [sL | sL | | sL mL eL]; cbn [lo_tight] in HL; try discriminate.
+  - apply Z.eqb_eq in HL. subst lo.
+    destruct v as [s | s | | s m e]; cbn [Z_le_sf] in Hle; try contradiction; [reflexivity|].
+    destruct s; [exfalso | reflexivity].
+    destruct (0 <=? e) eqn:E.
+    + apply Z.leb_le in E. pose proof (pow2_pos e E). change (Z.neg m) with (- Z.pos m) in Hle. nia.
+    + change (Z.neg m) with (- Z.pos m) in Hle. lia.
+  - destruct sL; [|discriminate].
+    apply andb_true_iff in HL. destruct HL as [HL HL4].
+    apply andb_true_iff in HL. destruct HL as [HL HL3].
+    apply andb_true_iff in HL. destruct HL as [HL1 HL2].
+    apply Z.leb_le in HL1. apply Z.leb_le in HL2. apply Z.leb_le in HL3.
+    destruct v as [s | s | | s m e]; cbn [Z_le_sf] in Hle; try contradiction; [reflexivity|].
+    destruct s; [|reflexivity].
+    assert (Hc : e < eL \/ (e = eL /\ Z.pos m <= Z.pos mL)).
+    { apply (mag_cmp_complete (prec f) (femin f) (Z.pos m) e (Z.pos mL) eL (- lo)); auto.
+      - lia.
+      - intros He. apply (valid_normal f true m e Hv He).
+      - unfold mlt. destruct (0 <=? eL); apply Z.ltb_lt in HL4; exact HL4.
+      - unfold mle. change (Z.neg m) with (- Z.pos m) in Hle.
+        destruct (0 <=? e); lia. }
+    unfold f_ge. cbn [SFcompare].
+    change (Pos.compare_cont Eq m mL) with (Pos.compare m mL).
+    destruct Hc as [Hc | [Hc1 Hc2]].
+    + apply Z.compare_lt_iff in Hc. rewrite Hc. reflexivity.
+    + subst eL. rewrite Z.compare_refl.
+      destruct (Pos.compare_spec m mL) as [Hm | Hm | Hm]; try reflexivity. lia.
+Qed.
+
+Lemma f_le_complete : forall f v H hi, 0 < prec f -> valid f v ->
+  hi_tight (prec f) (femin f) H hi = true -> sf_le_Z v hi -> f_le v H = true.
+Proof.
+  intros f v H hi Hp Hv HH Hle.
+  destruct H as [sH | sH | | sH mH eH]; cbn [hi_tight] in HH; try discriminate.
+  destruct sH; [discriminate|].
+  apply andb_true_iff in HH. destruct HH as [HH HH4].
+  apply andb_true_iff in HH. destruct HH as [HH HH3].
+  apply andb_true_iff in HH. destruct HH as [HH1 HH2].
+  apply Z.leb_le in HH1. apply Z.leb_le in HH2. apply Z.leb_le in HH3.
+  destruct v as [s | s | | s m e]; cbn [sf_le_Z] in Hle; try contradiction; [reflexivity|].
+  destruct s; [reflexivity|].
+  assert (Hc : e < eH \/ (e = eH /\ Z.pos m <= Z.pos mH)).
+  { apply (mag_cmp_complete (prec f) (femin f) (Z.pos m) e (Z.pos mH) eH hi); auto.
+    - lia.
+    - intros He. apply (valid_normal f false m e Hv He).
+    - unfold mlt. destruct (0 <=? eH); apply Z.ltb_lt in HH4; exact HH4. }
+  unfold f_le. cbn [SFcompare].
+  change (Pos.compare_cont Eq m mH) with (Pos.compare m mH).
+  destruct Hc as [Hc | [Hc1 Hc2]].
+  + apply Z.compare_lt_iff in Hc. rewrite Hc. reflexivity.
+  + subst eH. rewrite Z.compare_refl.
+    destruct (Pos.compare_spec m mH) as [Hm | Hm | Hm]; try reflexivity. lia.
+Qed.
+
+Definition bounds_tight (f : fmt) (t : ity) : bool :=
+  lo_tight (prec f) (femin f) (f_of_Z f (ity_lo t)) (ity_lo t) &&
+  hi_tight (prec f) (femin f) (hi_bound f t) (ity_hi t).
+
+Lemma bounds_tight_all : forall f t, (f = F32 \/ f = F64) -> ity_ok t -> bounds_tight f t = true.
+Proof.
+  intros f t Hf Ht. unfold ity_ok in Ht. cbn [In] in Ht.
+  destruct Hf; subst f;
+    repeat (destruct Ht as [Ht | Ht]; [subst t; vm_compute; reflexivity|]); contradiction.
+Qed.
+
+(* converse of float_cast_defined: every valid finite value lying (as a rational) within the
+   integer range is accepted, so conv_float_int returns its truncation *)
+Theorem float_cast_complete : forall f t v, (f = F32 \/ f = F64) -> ity_ok t -> valid f v ->
+  Z_le_sf (ity_lo t) v -> sf_le_Z v (ity_hi t) ->
+  can_conv_float_int f t v = true.
+Proof.
+  intros f t v Hf Ht Hv Hlo Hhi. rewrite can_conv_unfold.
+  pose proof (bounds_tight_all f t Hf Ht) as Hb. unfold bounds_tight in Hb.
+  apply andb_true_iff in Hb. destruct Hb as [Hb1 Hb2].
+  assert (Hp : 0 < prec f) by (destruct Hf; subst f; reflexivity).
+  apply andb_true_iff. split.
+  - eapply f_ge_complete; eauto.
+  - eapply f_le_complete; eauto.
+Qed.
+
+Corollary conv_float_int_exact : forall f t v, (f = F32 \/ f = F64) -> ity_ok t -> valid f v ->
+  Z_le_sf (ity_lo t) v -> sf_le_Z v (ity_hi t) ->
+  conv_float_int f t v = f_trunc v.
+Proof.
+  intros f t v Hf Ht Hv Hlo Hhi. unfold conv_float_int.
+  rewrite (float_cast_complete f t v); auto.
+Qed.
+
+(* the same hypotheses read on rationals *)
+From Coq Require Import QArith.
+Local Open Scope Z_scope.
+
+Definition sf_Q (v : spec_float) : Q :=
+  match v with
+  | S754_finite s m e =>
+      let sm := if s then Z.neg m else Z.pos m in
+      if 0 <=? e then inject_Z (sm * 2 ^ e) else Qmake sm (Z.to_pos (2 ^ (- e)))
+  | _ => 0%Q
+  end.
+
+Lemma Z_le_sf_Q : forall z v, is_finite v = true -> (Z_le_sf z v <-> (inject_Z z <= sf_Q v)%Q).
+Proof.
+  intros z v Hf. destruct v as [s | s | | s m e]; try discriminate.
+  - cbn [Z_le_sf sf_Q]. unfold Qle, inject_Z; cbn [Qnum Qden]. lia.
+  - cbn [Z_le_sf sf_Q]. cbv zeta. destruct (0 <=? e) eqn:E.
+    + unfold Qle, inject_Z; cbn [Qnum Qden]. lia.
+    + apply Z.leb_gt in E. unfold Qle, inject_Z; cbn [Qnum Qden].
+      rewrite Z2Pos.id by (apply pow2_pos; lia). lia.
+Qed.
+
+Lemma sf_le_Z_Q : forall z v, is_finite v = true -> (sf_le_Z v z <-> (sf_Q v <= inject_Z z)%Q).
+Proof.
+  intros z v Hf. destruct v as [s | s | | s m e]; try discriminate.
+  - cbn [sf_le_Z sf_Q]. unfold Qle, inject_Z; cbn [Qnum Qden]. lia.
+  - cbn [sf_le_Z sf_Q]. cbv zeta. destruct (0 <=? e) eqn:E.
+    + unfold Qle, inject_Z; cbn [Qnum Qden]. lia.
+    + apply Z.leb_gt in E. unfold Qle, inject_Z; cbn [Qnum Qden].
+      rewrite Z2Pos.id by (apply pow2_pos; lia). lia.
+Qed.
+
+Theorem float_cast_complete_Q : forall f t v, (f = F32 \/ f = F64) -> ity_ok t -> valid f v ->
+  is_finite v = true ->
+  (inject_Z (ity_lo t) <= sf_Q v)%Q -> (sf_Q v <= inject_Z (ity_hi t))%Q ->
+  can_conv_float_int f t v = true /\ conv_float_int f t v = f_trunc v.
+Proof.
+  intros f t v Hf Ht Hv Hfin Hlo Hhi.
+  apply Z_le_sf_Q in Hlo; auto. apply sf_le_Z_Q in Hhi; auto.
+  split; [apply float_cast_complete | apply conv_float_int_exact]; auto.
+Qed.
+
+(* ------------------------------------------------------------------------------------------ *)
+(* every bit pattern decodes to a valid value (so [valid] holds of anything read from storage) *)
+(* ------------------------------------------------------------------------------------------ *)
+
+Lemma digits2_pos_range : forall M k, 2 ^ (k - 1) <= Z.pos M < 2 ^ k -> Z.pos (digits2_pos M) = k.
+Proof.
+  intros M k [Hl Hu].
+  pose proof (digits2_pos_lower M) as Dl. pose proof (digits2_pos_bound M) as Du.
+  set (d := Z.pos (digits2_pos M)) in *. assert (0 < d) by (unfold d; lia).
+  assert (0 < k).
+  { destruct (Z.lt_trichotomy k 0) as [Hk | [Hk | Hk]]; [|subst k; cbn in Hu; lia | exact Hk].
+    rewrite (Z.pow_neg_r 2 k) in Hu by lia. lia. }
+  assert (d - 1 < k) by (apply (Z.pow_lt_mono_r_iff 2); lia).
+  assert (k - 1 < d) by (apply (Z.pow_lt_mono_r_iff 2); lia).
+  lia.
+Qed.
+
+Lemma digits2_pos_le : forall M k, 0 <= k -> Z.pos M < 2 ^ k -> Z.pos (digits2_pos M) <= k.
+Proof.
+  intros M k Hk Hu. pose proof (digits2_pos_lower M) as Dl.
+  assert (Z.pos (digits2_pos M) - 1 < k) by (apply (Z.pow_lt_mono_r_iff 2); lia). lia.
+Qed.
+
+Theorem sf_of_bits_valid_gen : forall f x, 0 < mw f -> 2 <= ew f -> valid f (sf_of_bits f x).
+Proof.
+  intros f x Hmw Hew. unfold valid, sf_of_bits.
+  assert (HE : 2 ^ ew f = 2 * 2 ^ (ew f - 1)).
+  { replace (ew f) with (Z.succ (ew f - 1)) at 1 by lia. rewrite Z.pow_succ_r by lia. reflexivity. }
+  assert (HE0 : 2 ^ 1 <= 2 ^ (ew f - 1)) by (apply Z.pow_le_mono_r; lia).
+  change (2 ^ 1) with 2 in HE0.
+  assert (HM0 : 0 < 2 ^ mw f) by (apply pow2_pos; lia).
+  pose proof (Z.mod_pos_bound (x / 2 ^ mw f) (2 ^ ew f)) as He.
+  pose proof (Z.mod_pos_bound x (2 ^ mw f) HM0) as Hm.
+  set (e := (x / 2 ^ mw f) mod 2 ^ ew f) in *. set (m := x mod 2 ^ mw f) in *.
+  set (sg := Z.odd (x / 2 ^ (mw f + ew f))).
+  assert (He' : 0 <= e < 2 ^ ew f) by (apply He; lia). clear He.
+  destruct (Z.eqb_spec e 0) as [E0 | E0].
+  - destruct (Z.eqb_spec m 0) as [M0 | M0]; [reflexivity|].
+    cbn [valid_binary]. unfold bounded, canonical_mantissa, fexp, femin, SpecFloat.emin, prec, emax.
+    assert (Hd : Z.pos (digits2_pos (Z.to_pos m)) <= mw f).
+    { apply digits2_pos_le; [lia|]. rewrite Z2Pos.id by lia. lia. }
+    apply andb_true_iff. split.
+    + apply Zeq_is_eq_bool. lia.
+    + apply Z.leb_le. lia.
+  - destruct (Z.eqb_spec e (2 ^ ew f - 1)) as [E1 | E1].
+    + destruct (m =? 0); reflexivity.
+    + cbn [valid_binary]. unfold bounded, canonical_mantissa, fexp, SpecFloat.emin, prec, emax, bias.
+      assert (Hd : Z.pos (digits2_pos (Z.to_pos (m + 2 ^ mw f))) = mw f + 1).
+      { apply digits2_pos_range. rewrite Z2Pos.id by lia.
+        replace (mw f + 1 - 1) with (mw f) by lia. rewrite Z.pow_add_r by lia.
+        change (2 ^ 1) with 2. lia. }
+      rewrite Hd. apply andb_true_iff. split.
+      * apply Zeq_is_eq_bool. lia.
+      * apply Z.leb_le. lia.
+Qed.
+
+Corollary sf_of_bits_valid : forall f x, (f = F32 \/ f = F64) -> valid f (sf_of_bits f x).
+Proof. intros f x [-> | ->]; apply sf_of_bits_valid_gen; cbn; lia. Qed.
+
+Corollary float_cast_defined_bits : forall f t b, (f = F32 \/ f = F64) -> ity_ok t ->
+  can_conv_float_int f t (sf_of_bits f b) = true ->
+  ity_lo t <= f_trunc (sf_of_bits f b) <= ity_hi t.
+Proof.
+  intros f t b Hf Ht. apply (float_cast_defined f); auto. apply sf_of_bits_valid; auto.
+Qed.
+
+(* ------------------------------------------------------------------------------------------ *)
+(* Part 2, end to end — literals  [sign] digits (e|E) [sign] digits                            *)
+(* ------------------------------------------------------------------------------------------ *)
+
+Definition digitb (b : N) : Prop := (48 <= b <= 57)%N.
+Definition dec (l : list N) (acc : Z) : Z := fold_left (fun a b => a * 10 + digit_val b) l acc.
+
+Lemma digitb_is_digit : forall b, digitb b -> is_digit b = true.
+Proof.
+  intros b [A B]. unfold is_digit. apply andb_true_intro. split; apply N.leb_le; assumption.
+Qed.
+
+Lemma dec_ge : forall l acc, Forall digitb l -> 0 <= acc -> acc <= dec l acc.
+Proof.
+  induction l as [|b t IH]; intros acc F Ha; cbn [dec fold_left]; [lia|].
+  inversion F as [|? ? Hb F']; subst. pose proof (is_digit_val b (digitb_is_digit b Hb)) as Hd.
+  pose proof (IH (acc * 10 + digit_val b) F' ltac:(lia)) as H. unfold dec in H. lia.
+Qed.
+
+Lemma scan_int_prefix : forall ds acc rest, Forall digitb ds -> 0 <= acc -> dec ds acc <= maxUint ->
+  is_digit (hd0 rest) = false -> scan_int (ds ++ rest) acc = (dec ds acc, rest).
+Proof.
+  induction ds as [|b t IH]; intros acc rest F Ha Hv Hr.
+  - cbn [app dec fold_left]. destruct rest as [|r rest']; [reflexivity|].
+    cbn [hd0] in Hr. cbn [scan_int]. rewrite Hr. reflexivity.
+  - inversion F as [|? ? Hb F']; subst. cbn [app scan_int dec fold_left].
+    rewrite (digitb_is_digit b Hb).
+    pose proof (is_digit_val b (digitb_is_digit b Hb)) as Hd.
+    cbn [dec fold_left] in Hv.
+    pose proof (dec_ge t (acc * 10 + digit_val b) F' ltac:(lia)) as G. unfold dec in G.
+    assert (Hmax : maxUint = 18446744073709551615) by reflexivity.
+    rewrite Hmax in *.
+    change (18446744073709551615 / 10) with 1844674407370955161.
+    destruct (Z.gtb_spec acc 1844674407370955161) as [X|X]; [lia|].
+    destruct (Z.gtb_spec (acc * 10) (18446744073709551615 - digit_val b)) as [Y|Y]; [lia|].
+    apply IH; auto. lia.
+Qed.
+
+(* the saturating exponent accumulator *)
+Definition exp_of (es : list N) : Z := fst (scan_exp es 0).
+
+Lemma scan_exp_digits : forall es e0, Forall digitb es -> 0 <= e0 ->
+  snd (scan_exp es e0) = [] /\
+  (dec es e0 < 10000 -> fst (scan_exp es e0) = dec es e0) /\
+  (10000 <= dec es e0 -> 10000 <= fst (scan_exp es e0)).
+Proof.
+  induction es as [|b t IH]; intros e0 F He0.
+  - cbn [scan_exp dec fold_left fst snd]. repeat split; auto.
+  - inversion F as [|? ? Hb F']; subst. cbn [scan_exp dec fold_left].
+    rewrite (digitb_is_digit b Hb).
+    pose proof (is_digit_val b (digitb_is_digit b Hb)) as Hd.
+    destruct (Z.ltb_spec e0 10000) as [Hlt | Hge].
+    + apply IH; auto. lia.
+    + destruct (IH e0 F' He0) as [I1 [I2 I3]].
+      pose proof (dec_ge t e0 F' He0) as G1.
+      pose proof (dec_ge t (e0 * 10 + digit_val b) F' ltac:(lia)) as G2. unfold dec in *.
+      split; [exact I1|]. split; [lia|]. intros _. 
+      destruct (Z.lt_ge_cases (fold_left (fun a b0 => a * 10 + digit_val b0) t e0) 10000); lia.
+Qed.
+
+Lemma exp_of_small : forall es, Forall digitb es -> dec es 0 < 10000 -> exp_of es = dec es 0.
+Proof. intros es F H. unfold exp_of. apply (scan_exp_digits es 0 F (Z.le_refl 0)); exact H. Qed.
+
+Lemma exp_of_large : forall es, Forall digitb es -> 10000 <= dec es 0 -> 10000 <= exp_of es.
+Proof. intros es F H. unfold exp_of. apply (scan_exp_digits es 0 F (Z.le_refl 0)); exact H. Qed.
+
+Lemma exp_of_ge : forall es k, Forall digitb es -> k <= 10000 -> k <= dec es 0 -> k <= exp_of es.
+Proof.
+  intros es k F Hk H. destruct (Z.lt_ge_cases (dec es 0) 10000) as [L|G].
+  - rewrite exp_of_small; auto.
+  - pose proof (exp_of_large es F G). lia.
+Qed.
+
+Lemma scan_exp_all : forall es, Forall digitb es -> scan_exp es 0 = (exp_of es, []).
+Proof.
+  intros es F. unfold exp_of. destruct (scan_exp_digits es 0 F (Z.le_refl 0)) as [H _].
+  destruct (scan_exp es 0) as [e r]. cbn [fst snd] in *. subst r. reflexivity.
+Qed.
+
+Definition mant_max_of (c : cfg) : Z := if use_double c then 2 ^ 52 - 1 else 2 ^ 23 - 1.
+
+Definition sign_bytes (sg : option bool) : bytes :=
+  match sg with None => [] | Some true => [45%N] | Some false => [43%N] end.
+Definition sign_neg (sg : option bool) : bool := match sg with Some true => true | _ => false end.
+
+Lemma shrink_noop : forall n mm m e, m <= mm -> shrink_mantissa n mm m e = (m, e).
+Proof.
+  intros n mm m e H. destruct n; cbn [shrink_mantissa]; [reflexivity|].
+  destruct (Z.gtb_spec m mm); [lia | reflexivity].
+Qed.
+
+Lemma digit_ne : forall b x, digitb b -> (57 < x)%N -> (b =? x)%N = false.
+Proof. intros b x [A B] H. apply N.eqb_neq. lia. Qed.
+
+Definition exp_sign (t : bytes) : bool * bytes :=
+  match t with
+  | 45%N :: t' => (true, t')
+  | 43%N :: t' => (false, t')
+  | _ => (false, t)
+  end.
+
+Lemma exp_sign_bytes : forall esg es, Forall digitb es ->
+  exp_sign (sign_bytes esg ++ es) = (sign_neg esg, es).
+Proof.
+  intros esg es F. destruct esg as [[|]|]; cbn [sign_bytes app sign_neg]; try reflexivity.
+  destruct es as [|d es']; [reflexivity|].
+  inversion F as [|? ? [A B] _]; subst.
+  assert (K : (d = 48 \/ d = 49 \/ d = 50 \/ d = 51 \/ d = 52 \/ d = 53 \/ d = 54 \/ d = 55 \/
+              d = 56 \/ d = 57)%N) by lia.
+  destruct K as [->|[->|[->|[->|[->|[->|[->|[->|[->| ->]]]]]]]]]; reflexivity.
+Qed.
+
+Lemma parse_exp_lit_signed : forall c (neg : bool) b t eb (esg : option bool) es,
+  Forall digitb (b :: t) -> dec (b :: t) 0 <= mant_max_of c -> (eb = 101 \/ eb = 69)%N ->
+  Forall digitb es ->
+  parse_number c ((if neg then 45%N else 43%N) :: (b :: t) ++ eb :: sign_bytes esg ++ es)
+  = finish c neg (dec (b :: t) 0) (if sign_neg esg then - exp_of es else exp_of es).
+Proof.
+  intros c neg b t eb esg es F Hm Heb Fe.
+  assert (Hb : digitb b) by (inversion F; assumption).
+  assert (Hnd : is_digit eb = false) by (destruct Heb; subst eb; reflexivity).
+  assert (Hmm : dec (b :: t) 0 <= maxUint).
+  { eapply Z.le_trans; [exact Hm|]. unfold mant_max_of. destruct (use_double c); vm_compute; discriminate. }
+  pose proof (scan_int_prefix (b :: t) 0 (eb :: sign_bytes esg ++ es) F (Z.le_refl 0) Hmm Hnd) as Hs.
+  rewrite parse_number_alt_eq. unfold parse_number_alt.
+  fold (mant_max_of c).
+  destruct neg; cbv iota beta; cbn [hd0 app].
+  all: rewrite !(digit_ne b _ Hb) by lia; rewrite (digitb_is_digit b Hb); cbn [negb orb andb];
+    rewrite !andb_false_r; cbn [app] in Hs; rewrite Hs; cbv iota beta;
+    rewrite shrink_noop by exact Hm; cbv iota beta; cbn [skip_digits]; rewrite Hnd; cbv iota beta.
+  all: destruct Heb; subst eb; cbv iota beta; cbn [N.eqb Pos.eqb orb]; cbv iota;
+    change (match sign_bytes esg ++ es with
+            | 43%N :: t1 => (false, t1)
+            | 45%N :: t2 => (true, t2)
+            | _ => (false, sign_bytes esg ++ es)
+            end) with (exp_sign (sign_bytes esg ++ es));
+    rewrite (exp_sign_bytes esg es Fe); cbv iota beta;
+    rewrite (scan_exp_all es Fe); cbv iota beta; unfold go_tail; rewrite Z.add_0_r; reflexivity.
+Qed.
+
+(* a literal that starts with a digit carries no sign *)
+Lemma parse_number_plus_head : forall c b t, digitb b ->
+  parse_number c (b :: t) = parse_number c (43%N :: b :: t).
+Proof.
+  intros c b t [A B].
+  assert (K : (b = 48 \/ b = 49 \/ b = 50 \/ b = 51 \/ b = 52 \/ b = 53 \/ b = 54 \/ b = 55 \/
+              b = 56 \/ b = 57)%N) by lia.
+  destruct K as [->|[->|[->|[->|[->|[->|[->|[->|[->| ->]]]]]]]]]; reflexivity.
+Qed.
+
+(* [sign] digits (e|E) [sign] digits, with a mantissa that fits the significand: the result is the
+   classification of (sign, value of the digits, saturated exponent) *)
+Theorem parse_exp_literal : forall c (sg : option bool) ds eb (esg : option bool) es,
+  Forall digitb ds -> ds <> [] -> dec ds 0 <= mant_max_of c -> (eb = 101 \/ eb = 69)%N ->
+  Forall digitb es ->
+  parse_number c (sign_bytes sg ++ ds ++ eb :: sign_bytes esg ++ es)
+  = finish c (sign_neg sg) (dec ds 0) (if sign_neg esg then - exp_of es else exp_of es).
+Proof.
+  intros c sg ds eb esg es F Hne Hm Heb Fe.
+  destruct ds as [|b t]; [contradiction|].
+  assert (Hb : digitb b) by (inversion F; assumption).
+  destruct sg as [[|]|]; cbn [sign_bytes sign_neg app].
+  - apply (parse_exp_lit_signed c true b t eb esg es); auto.
+  - apply (parse_exp_lit_signed c false b t eb esg es); auto.
+  - rewrite parse_number_plus_head by exact Hb.
+    apply (parse_exp_lit_signed c false b t eb esg es); auto.
+Qed.
+
+Lemma dec_nonneg : forall ds, Forall digitb ds -> 0 <= dec ds 0.
+Proof. intros ds F. apply (dec_ge ds 0 F (Z.le_refl 0)). Qed.
+
+(* zero stays zero whatever the exponent *)
+Corollary zero_mantissa_literal : forall c sg ds eb esg es,
+  Forall digitb ds -> ds <> [] -> dec ds 0 = 0 -> (eb = 101 \/ eb = 69)%N -> Forall digitb es ->
+  parse_number c (sign_bytes sg ++ ds ++ eb :: sign_bytes esg ++ es) = NumFloat (S754_zero (sign_neg sg)).
+Proof.
+  intros c sg ds eb esg es F Hne H0 Heb Fe. rewrite parse_exp_literal; auto.
+  - rewrite H0. apply finish_zero.
+  - rewrite H0. unfold mant_max_of. destruct (use_double c); vm_compute; discriminate.
+Qed.
+
+(* an exponent above the format's decimal range gives an infinity of the literal's sign, never a
+   finite value (the saturation of the exponent accumulator keeps arbitrarily long exponents huge) *)
+Corollary huge_exponent_literal : forall c sg ds eb esg es,
+  Forall digitb ds -> 0 < dec ds 0 <= mant_max_of c -> (eb = 101 \/ eb = 69)%N -> Forall digitb es ->
+  sign_neg esg = false -> exp_max_of c < dec es 0 ->
+  parse_number c (sign_bytes sg ++ ds ++ eb :: sign_bytes esg ++ es)
+  = mk_jfloat c (S754_infinity (sign_neg sg)).
+Proof.
+  intros c sg ds eb esg es F Hm Heb Fe Hsg He.
+  assert (Hne : ds <> []) by (intros ->; cbn in Hm; lia).
+  rewrite parse_exp_literal; auto; [|lia]. rewrite Hsg.
+  apply finish_huge; [lia|].
+  assert (exp_max_of c + 1 <= exp_of es); [|lia].
+  apply exp_of_ge; auto; [|lia]. unfold exp_max_of. destruct (use_double c); lia.
+Qed.
+
+(* an exponent far below the format's decimal range gives a zero of the literal's sign *)
+Corollary tiny_exponent_literal : forall c sg ds eb esg es,
+  Forall digitb ds -> 0 < dec ds 0 <= mant_max_of c -> (eb = 101 \/ eb = 69)%N -> Forall digitb es ->
+  sign_neg esg = true -> exp_max_of c + 20 < dec es 0 ->
+  parse_number c (sign_bytes sg ++ ds ++ eb :: sign_bytes esg ++ es)
+  = NumFloat (S754_zero (sign_neg sg)).
+Proof.
+  intros c sg ds eb esg es F Hm Heb Fe Hsg He.
+  assert (Hne : ds <> []) by (intros ->; cbn in Hm; lia).
+  rewrite parse_exp_literal; auto; [|lia]. rewrite Hsg.
+  apply finish_tiny; [lia|].
+  assert (exp_max_of c + 21 <= exp_of es); [|lia].
+  apply exp_of_ge; auto; [|lia]. unfold exp_max_of. destruct (use_double c); lia.
+Qed.
+
+(* concrete instances *)
+Example ex_1e400 : parse_number default_cfg [49; 101; 52; 48; 48]%N = NumDouble (S754_infinity false).
+Proof. reflexivity. Qed.
+Example ex_m1e400 : parse_number default_cfg [45; 49; 101; 52; 48; 48]%N = NumDouble (S754_infinity true).
+Proof. reflexivity. Qed.
+Example ex_1em400 : parse_number default_cfg [49; 101; 45; 52; 48; 48]%N = NumFloat (S754_zero false).
+Proof. reflexivity. Qed.
+Example ex_0e999999 : parse_number default_cfg [48; 101; 57; 57; 57; 57; 57; 57]%N = NumFloat (S754_zero false).
+Proof. reflexivity. Qed.
